@@ -18,6 +18,7 @@ From AV Require Import Byods.Provider Engine.EvalProv Engine.InterfaceProv.
 From AV Require Byods.Closure.
 From AV Require Import Byods.TrRelAdapter.
 From AV Require Import Byods.TrUfProvLaws.
+From AV Require Import Byods.TrUfProvTernary.
 From AV Require Import Byods.TrUfProvEngine.
 Import ListNotations.
 
@@ -386,4 +387,185 @@ Proof.
   - exact rtc2_arity.
 Qed.
 
+(* ================================================================== the ternary form *)
+(* the closure per key: reflexive transitive closure of the pairs recorded under each value of column 0 *)
+Definition keys_of3 (l : list T3) : list nat := nodup Nat.eq_dec (map fst l).
+Definition cl3n (l : list T3) : list T3 := flat_map (fun k => map (pair k) (rtcl (proj k l))) (keys_of3 l).
+
+Lemma cl3n_in k p l : In (k, p) (cl3n l) <-> In p (rtcl (proj k l)).
+Proof.
+  unfold cl3n. rewrite in_flat_map. split.
+  - intros [k' [Hk H]]. apply in_map_iff in H. destruct H as [p' [E Hp]]. inversion E; subst. exact Hp.
+  - intros H. exists k. split; [|apply in_map; exact H]. unfold keys_of3. apply nodup_In. apply in_map_iff.
+    destruct p as [x y]. apply rtcl_spec in H. destruct (rtc_mentioned _ _ _ H) as [[z [Hz|Hz]] _]; apply proj_in in Hz; eexists; (split; [|exact Hz]); reflexivity.
+Qed.
+
+Lemma cl3n_closure_op : closure_op T3 cl3n.
+Proof.
+  constructor.
+  - intros s [k p] H. apply cl3n_in. apply (cl_ext T2 rtcl rtcl_closure_op). apply proj_in. exact H.
+  - intros s s' Hi [k p] H. apply cl3n_in. apply cl3n_in in H. eapply (cl_mono T2 rtcl rtcl_closure_op); [|exact H].
+    intros u Hu. apply proj_in. apply Hi. apply proj_in. exact Hu.
+  - intros s [k p] H. apply cl3n_in. apply cl3n_in in H. apply (cl_idem T2 rtcl rtcl_closure_op).
+    eapply (cl_mono T2 rtcl rtcl_closure_op); [|exact H]. intros u Hu. apply proj_in in Hu. apply cl3n_in in Hu. exact Hu.
+  - reflexivity.
+Qed.
+
+Lemma qguardedT_qhist3 h1 h2 h : qguardedT T3 (PT h1 h2) h -> qhist3 h.
+Proof. induction 1; constructor; assumption. Qed.
+
+Theorem trufprov_ternary_qlaws h1 h2 : qlawsT T3 (PT h1 h2) cl3n.
+Proof.
+  constructor.
+  - intros h v t G. apply pt_contains_iff. apply (qguardedT_qhist3 h1 h2); exact G.
+  - intros h G. pose proof (pt_served h1 h2 h (qguardedT_qhist3 h1 h2 h G)) as S. split; intros [k [x y]] H.
+    + apply cl3n_in. apply rtcl_spec. apply S. exact H.
+    + apply S. apply rtcl_spec. apply cl3n_in. exact H.
+  - intros h t G _ _ Hn. apply pt_first_insert; [apply (qguardedT_qhist3 h1 h2); exact G|exact Hn].
+  - intros h G. apply pt_merge_total. apply (qguardedT_qhist3 h1 h2); exact G.
+  - intros h G Hn. apply pt_quiescent; [apply (qguardedT_qhist3 h1 h2); exact G|exact Hn].
+  - intros h _. apply pt_restart_serves.
+  - intros h _. rewrite pt_restart_total. intros t [].
+Qed.
+
+Definition encv (t : T3) : tuple := [nz (fst t); nz (fst (snd t)); nz (snd (snd t))].
+Definition decv (t : tuple) : option T3 := match t with [k; a; b] => Some (zn k, (zn a, zn b)) | _ => None end.
+Lemma decv_encv x : decv (encv x) = Some x.
+Proof. destruct x as [k [a b]]. unfold decv, encv. cbn [fst snd]. rewrite !zn_nz. reflexivity. Qed.
+Lemma encv_decv t x : decv t = Some x -> encv x = t.
+Proof.
+  destruct t as [|k [|a [|b [|c t]]]]; cbn; try discriminate. intros H; inversion H; subst. unfold encv. cbn [fst snd]. rewrite !nz_zn. reflexivity.
+Qed.
+
+(* the ternary #[ds(trrel_uf)] relation as the engine sees it (h1, h2: whether the declared indices need the reverse maps) *)
+Definition trrel_uf_ternary (h1 h2 : bool) : provider tuple := adapt T3 (PT h1 h2) encv decv.
+Definition rtc3 : list tuple -> list tuple := acl T3 encv decv cl3n.
+
+Theorem rtc3_closure_op : closure_op tuple rtc3.
+Proof. apply acl_closure_op; [exact decv_encv | exact encv_decv | exact cl3n_closure_op]. Qed.
+Theorem rtc3_arity : cl_arity rtc3 3.
+Proof. apply acl_arity. intros [k [x y]]; reflexivity. Qed.
+Theorem trrel_uf_ternary_qengine_laws h1 h2 : qengine_laws (trrel_uf_ternary h1 h2) rtc3.
+Proof. apply adapt_qengine_laws; first [exact decv_encv | exact encv_decv | exact (trufprov_ternary_qlaws h1 h2)]. Qed.
+
+Definition rtc_rules3 (r0 : rel) : list rule :=
+  [ {| heads := [(r0, [TVar 0%nat; TVar 1%nat; TVar 1%nat])]; body := [BClause r0 [TVar 0%nat; TVar 1%nat; TVar 2%nat] []] |};
+    {| heads := [(r0, [TVar 0%nat; TVar 2%nat; TVar 2%nat])]; body := [BClause r0 [TVar 0%nat; TVar 1%nat; TVar 2%nat] []] |};
+    {| heads := [(r0, [TVar 0%nat; TVar 1%nat; TVar 3%nat])];
+       body := [BClause r0 [TVar 0%nat; TVar 1%nat; TVar 2%nat] []; BClause r0 [TVar 0%nat; TVar 2%nat; TVar 3%nat] []] |} ].
+
+Section Bridge3.
+Variable I : interp.
+
+Lemma derive_refl3_l db r0 f :
+  In f (derive_rule I db {| heads := [(r0, [TVar 0%nat; TVar 1%nat; TVar 1%nat])]; body := [BClause r0 [TVar 0%nat; TVar 1%nat; TVar 2%nat] []] |}) <->
+  exists k a b, In [k; a; b] (db r0) /\ f = (r0, [k; a; a]).
+Proof.
+  unfold derive_rule. cbn [body heads all_envs]. rewrite in_flat_map. split.
+  - intros [e [He Hf]]. apply in_flat_map in He. destruct He as [tup [Ht He]].
+    destruct tup as [|k [|a [|b [|c r]]]]; cbn in He; try destruct He as [He|He]; try destruct He.
+    exists k, a, b. split; [exact Ht|]. cbn in Hf. destruct Hf as [<-|[]]. reflexivity.
+  - intros [k [a [b [Ht ->]]]]. exists [Some k; Some a; Some b]. split.
+    + apply in_flat_map. exists [k; a; b]. split; [exact Ht|]. cbn. left. reflexivity.
+    + cbn. left. reflexivity.
+Qed.
+
+Lemma derive_refl3_r db r0 f :
+  In f (derive_rule I db {| heads := [(r0, [TVar 0%nat; TVar 2%nat; TVar 2%nat])]; body := [BClause r0 [TVar 0%nat; TVar 1%nat; TVar 2%nat] []] |}) <->
+  exists k a b, In [k; a; b] (db r0) /\ f = (r0, [k; b; b]).
+Proof.
+  unfold derive_rule. cbn [body heads all_envs]. rewrite in_flat_map. split.
+  - intros [e [He Hf]]. apply in_flat_map in He. destruct He as [tup [Ht He]].
+    destruct tup as [|k [|a [|b [|c r]]]]; cbn in He; try destruct He as [He|He]; try destruct He.
+    exists k, a, b. split; [exact Ht|]. cbn in Hf. destruct Hf as [<-|[]]. reflexivity.
+  - intros [k [a [b [Ht ->]]]]. exists [Some k; Some a; Some b]. split.
+    + apply in_flat_map. exists [k; a; b]. split; [exact Ht|]. cbn. left. reflexivity.
+    + cbn. left. reflexivity.
+Qed.
+
+Lemma derive_trans3 db r0 f :
+  In f (derive_rule I db {| heads := [(r0, [TVar 0%nat; TVar 1%nat; TVar 3%nat])];
+                           body := [BClause r0 [TVar 0%nat; TVar 1%nat; TVar 2%nat] []; BClause r0 [TVar 0%nat; TVar 2%nat; TVar 3%nat] []] |}) <->
+  exists k x y z, f = (r0, [k; x; z]) /\ In [k; x; y] (db r0) /\ In [k; y; z] (db r0).
+Proof.
+  unfold derive_rule. cbn [body heads all_envs]. rewrite in_flat_map. split.
+  - intros [e [He Hf]]. apply in_flat_map in He. destruct He as [t1 [H1 He]].
+    destruct t1 as [|k [|x [|y [|c t1]]]]; cbn in He; try (destruct He; fail).
+    apply in_flat_map in He. destruct He as [t2 [H2 He]].
+    destruct t2 as [|k' [|a [|z [|c t2]]]]; cbn in He; try (destruct He; fail);
+      destruct (k =? k')%Z eqn:Ek; cbn in He; try (destruct He; fail);
+      destruct (y =? a)%Z eqn:E; cbn in He; try (destruct He; fail).
+    apply Z.eqb_eq in E, Ek. subst a k'. destruct He as [<-|[]]. cbn in Hf. destruct Hf as [<-|[]]. exists k, x, y, z. auto.
+  - intros (k & x & y & z & -> & H1 & H2). exists [Some k; Some x; Some y; Some z]. split; [|left; reflexivity].
+    apply in_flat_map. exists [k; x; y]. split; [exact H1|]. cbn. apply in_flat_map. exists [k; y; z]. split; [exact H2|].
+    cbn. rewrite !Z.eqb_refl. left; reflexivity.
+Qed.
+
+Lemma closed_rtc_rules3 r0 M : closed I (rtc_rules3 r0) M <->
+  (forall k a b, In (r0, [k; a; b]) M -> In (r0, [k; a; a]) M /\ In (r0, [k; b; b]) M)
+  /\ (forall k a b c, In (r0, [k; a; b]) M -> In (r0, [k; b; c]) M -> In (r0, [k; a; c]) M).
+Proof.
+  unfold closed, derives. split.
+  - intros H. split.
+    + intros k a b Hab. apply in_db_of in Hab. split; apply H; eexists.
+      * split; [left; reflexivity|]. apply derive_refl3_l. exists k, a, b. auto.
+      * split; [right; left; reflexivity|]. apply derive_refl3_r. exists k, a, b. auto.
+    + intros k a b c Hab Hbc. apply in_db_of in Hab. apply in_db_of in Hbc. apply H. eexists. split; [right; right; left; reflexivity|].
+      apply derive_trans3. exists k, a, b, c. auto.
+  - intros [H1 H2] f [r [Hr Hf]]. destruct Hr as [<-|[<-|[<-|[]]]].
+    + apply derive_refl3_l in Hf. destruct Hf as [k [a [b [Hab ->]]]]. apply in_db_of in Hab. apply (H1 k a b Hab).
+    + apply derive_refl3_r in Hf. destruct Hf as [k [a [b [Hab ->]]]]. apply in_db_of in Hab. apply (H1 k a b Hab).
+    + apply derive_trans3 in Hf. destruct Hf as (k & x & y & z & -> & Hxy & Hyz). apply in_db_of in Hxy. apply in_db_of in Hyz. eapply H2; eassumption.
+Qed.
+
+Lemma decs_triple M r0 k x y : In (x, y) (proj k (decs T3 decv (db_of M r0))) <-> In (r0, [nz k; nz x; nz y]) M.
+Proof. rewrite proj_in, (decs_in T3 encv decv decv_encv encv_decv). unfold encv. cbn [fst snd]. apply in_db_of. Qed.
+
+Theorem rtc3_closed_iff_rules r0 M : cl_closed rtc3 r0 M <-> closed I (rtc_rules3 r0) M.
+Proof.
+  rewrite closed_rtc_rules3. unfold cl_closed, rtc3. split.
+  - intros H.
+    assert (Hc : forall k x y, rtc (proj k (decs T3 decv (db_of M r0))) x y -> In (r0, [nz k; nz x; nz y]) M).
+    { intros k x y Hxy. apply in_db_of. apply H. apply (acl_in T3 encv decv). left. exists (k, (x, y)). split; [reflexivity|].
+      apply cl3n_in. apply rtcl_spec. exact Hxy. }
+    split.
+    + intros k a b Hab. rewrite <- (nz_zn k), <- (nz_zn a), <- (nz_zn b) in Hab. apply decs_triple in Hab.
+      rewrite <- (nz_zn k), <- (nz_zn a), <- (nz_zn b). split; apply Hc; [eapply rtc_l|eapply rtc_r]; exact Hab.
+    + intros k a b c Hab Hbc. rewrite <- (nz_zn k), <- (nz_zn a), <- (nz_zn b) in Hab. rewrite <- (nz_zn k), <- (nz_zn b), <- (nz_zn c) in Hbc.
+      apply decs_triple in Hab. apply decs_triple in Hbc. rewrite <- (nz_zn k), <- (nz_zn a), <- (nz_zn c). apply Hc.
+      eapply rtc_t; apply rtc_e; eassumption.
+  - intros [H1 H2] t Ht. apply (acl_in T3 encv decv) in Ht. destruct Ht as [[[k [x y]] [-> Hxy]]|[Ht _]]; [|exact Ht].
+    apply cl3n_in in Hxy. apply rtcl_spec in Hxy. unfold encv. cbn [fst snd]. apply in_db_of.
+    induction Hxy as [x y Hi|x y Hi|x y Hi|x y z _ IH1 _ IH2].
+    + apply decs_triple in Hi. apply (H1 _ _ _ Hi).
+    + apply decs_triple in Hi. apply (H1 _ _ _ Hi).
+    + apply decs_triple in Hi. exact Hi.
+    + eapply H2; eassumption.
+Qed.
+
+Theorem least_model_rtc3_iff P r0 F0 M :
+  least_model_cl I P rtc3 r0 F0 M <-> least_model I (P ++ rtc_rules3 r0) F0 M.
+Proof.
+  unfold least_model_cl, least_model. split.
+  - intros (A & B & C & D). split; [exact A|]. split; [apply closed_app; split; [exact B | apply rtc3_closed_iff_rules; exact C]|].
+    intros M' H1 H2. apply closed_app in H2. destruct H2 as [H2 H3]. apply D; auto. apply rtc3_closed_iff_rules; exact H3.
+  - intros (A & B & D). apply closed_app in B. destruct B as [B C]. split; [exact A|]. split; [exact B|].
+    split; [apply rtc3_closed_iff_rules; exact C|]. intros M' H1 H2 H3. apply D; auto. apply closed_app. split; [exact H2 | apply rtc3_closed_iff_rules; exact H3].
+Qed.
+End Bridge3.
+
+Theorem trrel_uf_program_ternary : forall h1 h2 I swap r0 arities P pl fuel F0 st,
+  In (r0, 3%nat) arities -> arities_functional arities -> wf_facts arities F0 = true -> no_agg P = true ->
+  (forall f, In f F0 -> fst f <> r0) -> validate arities P pl = true ->
+  prun_plan I swap (trrel_uf_ternary h1 h2) r0 fuel pl F0 = Some st ->
+  least_model I (P ++ rtc_rules3 r0) F0 (pfacts (trrel_uf_ternary h1 h2) r0 st).
+Proof.
+  intros h1 h2 I swap r0 arities P pl fuel F0 st H1 H2 H3 H4 H5 H6 H7. apply least_model_rtc3_iff.
+  eapply (prun_plan_correct_q I swap (trrel_uf_ternary h1 h2) rtc3 r0 3%nat arities P pl fuel F0 st); eauto.
+  - exact rtc3_closure_op.
+  - exact (trrel_uf_ternary_qengine_laws h1 h2).
+  - exact rtc3_arity.
+Qed.
+
 Print Assumptions trrel_uf_program_binary.
+Print Assumptions trrel_uf_program_ternary.
